@@ -486,11 +486,14 @@ func (g *gen) laststat() {
 }
 
 // genProgram returns one random program.
-func genProgram(r *lib.Rand, size int) string {
-	g := &gen{r: r, budget: size}
+func genProgram(r *lib.Rand, size int) string { return genProgramPad(r, size, "") }
+
+// genProgramPad: the same program (same random stream) with pad at the head of every function body.
+func genProgramPad(r *lib.Rand, size int, pad string) string {
+	g := &gen{r: r, budget: size, pad: pad}
 	g.fn = &gfunc{vararg: true}
 	g.globals = []gvar{{"cnt", kNum}, {"gn", kNum}, {"gs", kStr}, {"mt0", kTbl}, {"gt", kTbl}, {"print0", kFun}, {"gf", kFun}, {"iter0", kFun}}
-	g.line("cnt, gn, gs = 0, 1, 'g'")
+	g.line("%scnt, gn, gs = 0, 1, 'g'", strings.TrimPrefix(pad, " "))
 	g.line("function print0(...) return ... end")
 	g.line("mt0 = {x = 1, y = 2, n = 3, m = function(self, a) return a end, f = print0, name = function() return 1, 2, 3 end}")
 	g.line("gt = {1, 2, 3, x = 4}")
